@@ -106,6 +106,11 @@ def run(ctx, chk):
                     chk.ob(False, "C12/shape/%s/%s" % (struct, p), "%s.%s [%s]: not a single table decoder applied to the raw code: %r" % (struct, p, cfg, term))
                     continue
                 nfields += 1
+                # the code that is mapped must be the transmitted one: the field's own bit range
+                if p in exp and exp[p][0] is not None:
+                    chk.ob((core[1], core[2]) == (exp[p][0], exp[p][1]), "C12/position/%s/%s/got=%s+%s/want=%s+%s" % (struct, p, core[1], core[2], exp[p][0], exp[p][1]),
+                           "%s.%s [%s]: the enumeration is decoded from bits %s+%s, the code is transmitted at bits %s+%s" % (struct, p, cfg, core[1], core[2], exp[p][0], exp[p][1]),
+                           sample={"enum_field": struct + "." + p, "bits": [core[1], core[2]]})
                 check_table(chk, I, C, cfg, leaves[0][1], (), enum_name, core[2], struct + "." + p, done)
                 if enum_name == "ShipType":
                     ship_leaf = leaves[0][1]
